@@ -1265,3 +1265,137 @@ Section DbProofs.
     end.
   Proof. apply revoke_refusals, reach_wf. Qed.
 End DbProofs.
+
+(* ================================================================ read-only queries and operations through identifiers
+   (Model/Db.v: query / xop / xstep / xrun).  Queries leave the store alone, so a history with queries interleaved
+   reaches the store of its mutating operations; an issued identifier resolves to the node stored at exactly the path
+   it was issued for, in every store; removal / revocation through an issued identifier is removal / revocation of
+   exactly that path. *)
+Section DbQueries.
+  Variable G : Type.
+  Variable g_revoke : G -> G.
+  Notation node := (node G).
+  Notation db := (db G).
+  Notation xstep := (xstep G g_revoke).
+  Notation xrun := (xrun G g_revoke).
+  Notation run := (run G g_revoke).
+  Notation step := (step G g_revoke).
+
+  (* a query returns the store it was asked about *)
+  Lemma xstep_query_store (d : db) t q : fst (xstep d (XQuery t q)) = d.
+  Proof. reflexivity. Qed.
+
+  Lemma xstep_denote (d : db) x :
+    fst (xstep d x) = match denote G x with Ok (Some o) => fst (step d o) | _ => d end.
+  Proof.
+    destruct x as [o|t l|t|t q]; cbn -[step]; try reflexivity.
+    - destruct (step d o); reflexivity.
+    - destruct (target_path t) as [p|e|]; cbn -[step]; try reflexivity. destruct (step d (ORevoke p l)); reflexivity.
+    - destruct (target_path t) as [p|e|]; cbn -[step]; try reflexivity. destruct (step d (ODelete p)); reflexivity.
+  Qed.
+
+  Lemma run_app (a b : list (op G)) (d : db) : run (a ++ b) d = run b (run a d).
+  Proof. unfold Db.run. apply fold_left_app. Qed.
+
+  (* a history with queries (and operations through identifiers) reaches the store of the mutating operations it
+     stands for *)
+  Theorem xrun_run xs : forall d : db, xrun xs d = run (mut_ops G xs) d.
+  Proof.
+    induction xs as [|x xs IH]; intros d; [reflexivity|].
+    change (xrun (x :: xs) d) with (xrun xs (fst (xstep d x))).
+    change (mut_ops G (x :: xs)) with ((match denote G x with Ok (Some o) => [o] | _ => [] end) ++ mut_ops G xs).
+    rewrite run_app, IH, xstep_denote.
+    destruct (denote G x) as [[o|]|e|]; reflexivity.
+  Qed.
+
+  Lemma mut_ops_queries xs : forallb (is_query G) xs = true -> mut_ops G xs = [].
+  Proof.
+    induction xs as [|x xs IH]; [reflexivity|]. cbn [forallb]. intros H. apply andb_true_iff in H as [H1 H2].
+    change (mut_ops G (x :: xs)) with ((match denote G x with Ok (Some o) => [o] | _ => [] end) ++ mut_ops G xs).
+    rewrite (IH H2). destruct x; try discriminate. reflexivity.
+  Qed.
+  (* any number of queries, on any targets, in any order: the store is the one they were asked about *)
+  Theorem xrun_queries xs (d : db) : forallb (is_query G) xs = true -> xrun xs d = d.
+  Proof. intros H. rewrite xrun_run, (mut_ops_queries _ H). reflexivity. Qed.
+
+  Lemma mut_ops_app a b : mut_ops G (a ++ b) = mut_ops G a ++ mut_ops G b.
+  Proof. unfold mut_ops. apply flat_map_app. Qed.
+  (* queries interleaved anywhere in a history do not change what the rest of the history reaches *)
+  Theorem xrun_queries_between a qs b (d : db) : forallb (is_query G) qs = true -> xrun (a ++ qs ++ b) d = xrun (a ++ b) d.
+  Proof. intros H. rewrite !xrun_run, !mut_ops_app, (mut_ops_queries _ H). reflexivity. Qed.
+
+  Notation xreach xs := (xrun xs []).
+  Lemma xreach_wf xs : wf G (xreach xs).
+  Proof. rewrite xrun_run. apply reach_wf. Qed.
+
+  (* ---- resolution of an issued identifier is a function of the identifier alone ---- *)
+  Lemma target_issued rnd p t : p <> [] -> sid_plain rnd p = Ok t -> target_path (ById t) = Ok p.
+  Proof. intros N H. cbn. eapply sid_roundtrip; eauto. Qed.
+  Theorem resolve_issued rnd p t (d : db) : p <> [] -> sid_plain rnd p = Ok t -> resolve G t d = q_node G p d.
+  Proof. intros N H. unfold resolve. rewrite (sid_roundtrip _ _ _ N H). reflexivity. Qed.
+  (* after any history - queries included, whatever identifiers they were asked through - the identifier resolves to
+     the node stored under the key of its own path in the store the mutating operations reach, or to KeyError *)
+  Theorem resolve_stable rnd p t k xs : p <> [] -> sid_plain rnd p = Ok t -> branch_key p = Ok k ->
+    resolve G t (xreach xs) =
+    match assoc k (run (mut_ops G xs) []) with Some n => Ok (k, n) | None => Err KeyError end.
+  Proof. intros N H K. rewrite (resolve_issued _ _ _ _ N H), xrun_run. unfold q_node. rewrite K. reflexivity. Qed.
+  Theorem resolve_after_queries rnd p t qs (d : db) : p <> [] -> sid_plain rnd p = Ok t ->
+    forallb (is_query G) qs = true -> resolve G t (xrun qs d) = q_node G p d.
+  Proof. intros N H Q. rewrite (xrun_queries _ _ Q). eapply resolve_issued; eauto. Qed.
+  (* two identifiers issued for different paths never resolve to the same stored node *)
+  Theorem resolve_apart r1 r2 p q t1 t2 (d : db) k1 n1 k2 n2 : p <> [] -> q <> [] ->
+    sid_plain r1 p = Ok t1 -> sid_plain r2 q = Ok t2 -> p <> q ->
+    resolve G t1 d = Ok (k1, n1) -> resolve G t2 d = Ok (k2, n2) -> k1 <> k2.
+  Proof.
+    intros Np Nq H1 H2 D R1 R2. rewrite (resolve_issued _ _ _ _ Np H1) in R1. rewrite (resolve_issued _ _ _ _ Nq H2) in R2.
+    unfold q_node in R1, R2. destruct (branch_key p) as [kp1| |] eqn:K1; try discriminate.
+    destruct (branch_key q) as [kq| |] eqn:K2; try discriminate. cbn in R1, R2.
+    destruct (assoc kp1 d); try discriminate. destruct (assoc kq d); try discriminate.
+    inversion R1; inversion R2; subst. intros E. subst. apply D. eapply branch_key_injective; eauto.
+  Qed.
+
+  (* ---- removal / revocation through an issued identifier is the operation on exactly its path ---- *)
+  Theorem remove_by_issued_id rnd p t : p <> [] -> sid_plain rnd p = Ok t ->
+    denote G (XRemoveId (ById t)) = Ok (Some (ODelete p)).
+  Proof. intros N H. cbn -[sid_path]. rewrite (sid_roundtrip _ _ _ N H). reflexivity. Qed.
+  Theorem revoke_by_issued_id rnd p t l : p <> [] -> sid_plain rnd p = Ok t ->
+    denote G (XRevokeId (ById t) l) = Ok (Some (ORevoke p l)).
+  Proof. intros N H. cbn -[sid_path]. rewrite (sid_roundtrip _ _ _ N H). reflexivity. Qed.
+  Theorem remove_by_issued_id_store rnd p t (d : db) : p <> [] -> sid_plain rnd p = Ok t ->
+    fst (xstep d (XRemoveId (ById t))) = fst (step d (ODelete p)).
+  Proof. intros N H. rewrite xstep_denote, (remove_by_issued_id _ _ _ N H). reflexivity. Qed.
+  Theorem revoke_by_issued_id_store rnd p t l (d : db) : p <> [] -> sid_plain rnd p = Ok t ->
+    fst (xstep d (XRevokeId (ById t) l)) = fst (step d (ORevoke p l)).
+  Proof. intros N H. rewrite xstep_denote, (revoke_by_issued_id _ _ _ l N H). reflexivity. Qed.
+
+  (* ---- what the answers contain ---- *)
+  (* sm[sid] / get(path): the one node stored under the key of the path *)
+  Theorem query_get_exact p (d : db) a : query G QGet p d = Ok a ->
+    exists k n, branch_key p = Ok k /\ assoc k d = Some n /\ a = ([], [(k, n)]).
+  Proof.
+    cbn. unfold q_node. destruct (branch_key p) as [k| |]; try discriminate. cbn.
+    destruct (assoc k d) as [n|] eqn:E; try discriminate. cbn. intros H. inversion H. eauto.
+  Qed.
+  Lemma in_present subs (d : db) k n : In (k, n) (present G subs d) -> In k subs /\ assoc k d = Some n.
+  Proof.
+    unfold present. rewrite in_flat_map. intros (s & Hs & Hi). destruct (assoc s d) as [m|] eqn:E; [|contradiction].
+    destruct Hi as [Hi|[]]. inversion Hi; subst. auto.
+  Qed.
+  (* grants(...) on a consistent store: every node handed back is a stored Grant one level below the node asked about,
+     i.e. a grant of that very (user, client) *)
+  Theorem q_grants_below p ck (d : db) l : wf G d -> branch_key p = Ok ck -> q_grants G p d = Ok l ->
+    forall k n, In (k, n) l -> assoc k d = Some n /\ is_grant G n = true /\
+                               exists x, unpack_branch_key k = (unpack_branch_key ck ++ [x])%list.
+  Proof.
+    intros W K. unfold q_grants, q_subs, q_node. rewrite K. cbn.
+    destruct (assoc ck d) as [[id subs r lv|g]|] eqn:E; cbn; try discriminate.
+    destruct (forallb _ (present G subs d)) eqn:F; try discriminate. intros H. inversion H; subst. clear H.
+    intros k n Hi. destruct (in_present _ _ _ _ Hi) as [Hs Ha]. split; [exact Ha|]. split.
+    - rewrite forallb_forall in F. apply (F _ Hi).
+    - destruct (wf_subordinates_stored G d W _ _ _ _ _ _ E Hs) as [_ X]. exact X.
+  Qed.
+  Lemma xreach_grants_below xs p ck l : branch_key p = Ok ck -> q_grants G p (xreach xs) = Ok l ->
+    forall k n, In (k, n) l -> assoc k (xreach xs) = Some n /\ is_grant G n = true /\
+                               exists x, unpack_branch_key k = (unpack_branch_key ck ++ [x])%list.
+  Proof. apply q_grants_below, xreach_wf. Qed.
+End DbQueries.
